@@ -26,8 +26,8 @@ S == INSTANCE SrcCore
 D == INSTANCE DstCore
 Now == 100000
 None == [t |-> "none"]
-VARIABLES cfg, hs, hd, sd, ds, budget, cbud, cut, obs, turn, settled, hist
-vars == <<cfg, hs, hd, sd, ds, budget, cbud, cut, obs, turn, settled, hist>>
+VARIABLES cfg, hs, hd, sd, ds, budget, cbud, cut, obs, turn, settled, hist, txn
+vars == <<cfg, hs, hd, sd, ds, budget, cbud, cut, obs, turn, settled, hist, txn>>
 
 CMax(a, b) == IF a > b THEN a ELSE b
 CMin(a, b) == IF a < b THEN a ELSE b
@@ -55,7 +55,7 @@ Succ(f) == f.cond = "NO_ERROR" /\ f.deliv = "DATA_COMPLETE" /\ f.fstat = "FILE_R
 FileOk(fs) == \E f \in fs : f.p = DstPath(cfg) /\ ~f.dir /\ f.d = cfg.file
 Collides(fs) == \E f \in fs : /\ f.p = DstPath(cfg) /\ ~f.dir /\ f.d # cfg.file
                               /\ S!FileChecksum(cfg.chk, f.d, Len(f.d)) = S!FileChecksum(cfg.chk, cfg.file, Len(cfg.file))
-Obs0 == [finS |-> <<>>, finD |-> <<>>, finPdu |-> <<>>, exc |-> {}, flt |-> {}, dStarted |-> FALSE, nS |-> 0, nD |-> 0, kf |-> {}]
+Obs0 == [finS |-> <<>>, finD |-> <<>>, finPdu |-> <<>>, exc |-> {}, flt |-> {}, dStarted |-> FALSE, nS |-> 0, nD |-> 0, kf |-> {}, corrupt |-> FALSE]
 FinRecs(ind, fs) ==
   LET f == SelectSeq(ind, LAMBDA i : i.k = "finished") IN
   [i \in DOMAIN f |-> [cond |-> f[i].cond, deliv |-> f[i].deliv, fstat |-> f[i].fstat,
@@ -88,7 +88,9 @@ EntAckEof(p) == [h |-> [p.h EXCEPT !.dir = "TS"], t |-> "ACK", acked |-> "EOF", 
 EntAckFin(p) == [h |-> [p.h EXCEPT !.dir = "TR"], t |-> "ACK", acked |-> "FIN", cond |-> p.cond, tstat |-> "TERMINATED"]
 
 Quiet == sd = <<>> /\ ds = <<>>
-Done == SrcClosed /\ hd.state = "IDLE" /\ Quiet
+AtRest == SrcClosed /\ hd.state = "IDLE" /\ Quiet
+NTx == 1 + Len(cfg.more)          \* cfg.more: the put requests that follow the first one on the same handlers
+Done == AtRest /\ txn = NTx
 \* ---- the clock (ageing of the armed timers, see the header) ----
 AgeT(t, dt, int) == IF t.armed THEN [t EXCEPT !.start = CMax(@ - dt, Now - int)] ELSE t
 AgedS(dt) == [hs EXCEPT !.ackT = AgeT(@, dt, cfg.ackInt), !.chkT = AgeT(@, dt, cfg.chkInt)]
@@ -102,8 +104,9 @@ BothSettled == ("S" \in settled \/ hs.state = "IDLE") /\ ("D" \in settled \/ hd.
 \* canonical pacing: when moreover both links are empty, time passes at once
 \* (if no timer is running either, nothing will ever happen again: the run is stuck)
 Calm == Pacing = "canon" /\ Quiet /\ BothSettled
-Stuck == Calm /\ ~CanTick /\ ~Done
-Open == ~Done /\ ~Stuck /\ (~Record \/ Len(hist) < MaxHist)
+Between == AtRest /\ txn < NTx        \* one transaction is over, the next put request comes now
+Stuck == Calm /\ ~CanTick /\ ~Done /\ ~Between
+Open == ~Done /\ ~Stuck /\ ~Between /\ (~Record \/ Len(hist) < MaxHist)
 Polling == ~Calm     \* handler calls are made only while not calm
 Hist(a, x) == hist' = IF Record THEN Append(hist, [a |-> a, x |-> x]) ELSE hist
 Canon == Pacing = "canon"
@@ -116,7 +119,7 @@ Init ==
   /\ hs = S!SrcPut(S!InitS(cfg), cfg, ReqOf(cfg), Now).h
   /\ hd = D!InitD(Fs0(cfg))
   /\ sd = <<>> /\ ds = <<>> /\ budget = K /\ cbud = Cancels /\ cut = {} /\ obs = Obs0
-  /\ turn = "S" /\ settled = {} /\ hist = <<>>
+  /\ turn = "S" /\ settled = {} /\ hist = <<>> /\ txn = 1
 
 \* ---- handler calls (one state_machine call + draining get_next_packet into the outbound link) ----
 SrcCall(deliver) ==
@@ -129,7 +132,7 @@ SrcCall(deliver) ==
      /\ settled' = IF ~deliver /\ dr.out = <<>> /\ dr.h = hs THEN settled \cup {"S"} ELSE settled \ {"S"}
   /\ turn' = IF Canon THEN "D" ELSE turn
   /\ Hist("S", IF deliver THEN 1 ELSE 0)
-  /\ UNCHANGED <<cfg, hd, budget, cbud, cut>>
+  /\ UNCHANGED <<txn, cfg, hd, budget, cbud, cut>>
 DstCall(deliver, wrej) ==
   /\ Open /\ Polling /\ ~DstClosed /\ (Canon => turn = "D") /\ (deliver => sd # <<>>) /\ (Canon /\ sd # <<>> => deliver)
   /\ wrej => (deliver /\ Head(sd).t = "FD" /\ "wrej" \in Faults /\ budget > 0)
@@ -137,12 +140,13 @@ DstCall(deliver, wrej) ==
          c == D!DstFsm(hd, cfg, pkt, Now, wrej)
          dr == D!DstDrain(c.h, -1) IN
      /\ hd' = dr.h /\ ds' = OnDs(dr.out) /\ sd' = IF deliver THEN Tail(sd) ELSE sd
-     /\ obs' = [ObsCall("D", c, dr.out, dr.h.fs) EXCEPT !.kf = @ \cup KnownSig("D", hd, pkt, dr.out)]
+     /\ obs' = [ObsCall("D", c, dr.out, dr.h.fs) EXCEPT !.kf = @ \cup KnownSig("D", hd, pkt, dr.out),
+                                                       !.corrupt = @ \/ wrej]
      /\ settled' = IF ~deliver /\ dr.out = <<>> /\ dr.h = hd THEN settled \cup {"D"} ELSE settled \ {"D"}
   /\ budget' = IF wrej THEN budget - 1 ELSE budget
   /\ turn' = IF Canon THEN "S" ELSE turn
   /\ Hist("D", IF wrej THEN 2 ELSE IF deliver THEN 1 ELSE 0)
-  /\ UNCHANGED <<cfg, hs, cbud, cut>>
+  /\ UNCHANGED <<txn, cfg, hs, cbud, cut>>
 \* closed transactions: the entity answers Finished / EOF and discards the rest
 SrcEntity ==
   /\ Open /\ Polling /\ SrcClosed /\ (Canon => turn = "S")
@@ -150,14 +154,14 @@ SrcEntity ==
                        /\ ds' = Tail(ds) /\ Hist("Se", 1)
      ELSE Canon /\ UNCHANGED <<sd, ds, hist>>
   /\ turn' = IF Canon THEN "D" ELSE turn
-  /\ UNCHANGED <<cfg, hs, hd, budget, cbud, cut, obs, settled>>
+  /\ UNCHANGED <<txn, cfg, hs, hd, budget, cbud, cut, obs, settled>>
 DstEntity ==
   /\ Open /\ Polling /\ DstClosed /\ (Canon => turn = "D")
   /\ IF sd # <<>> THEN /\ ds' = IF Head(sd).t = "EOF" /\ Head(sd).h.mode = "ACK" THEN OnDs(<<EntAckEof(Head(sd))>>) ELSE ds
                        /\ sd' = Tail(sd) /\ Hist("De", 1)
      ELSE Canon /\ UNCHANGED <<sd, ds, hist>>
   /\ turn' = IF Canon THEN "S" ELSE turn
-  /\ UNCHANGED <<cfg, hs, hd, budget, cbud, cut, obs, settled>>
+  /\ UNCHANGED <<txn, cfg, hs, hd, budget, cbud, cut, obs, settled>>
 
 \* ---- the link: faults hit the PDU that would be delivered next ----
 LinkTurn(l) == Canon => turn = (IF l = "sd" THEN "D" ELSE "S")
@@ -174,15 +178,16 @@ Fault(kind, l) ==
                     [] kind = "flip" -> <<[q[1] EXCEPT !.data[1] = Flip1(@)]>> \o Tail(q)
         IN IF l = "sd" THEN sd' = q2 /\ UNCHANGED ds ELSE ds' = q2 /\ UNCHANGED sd
   /\ budget' = budget - 1
+  /\ obs' = [obs EXCEPT !.corrupt = @ \/ kind = "flip"]
   /\ Hist(kind, IF l = "sd" THEN 0 ELSE 1)
-  /\ UNCHANGED <<cfg, hs, hd, cbud, cut, obs, turn, settled>>
+  /\ UNCHANGED <<txn, cfg, hs, hd, cbud, cut, turn, settled>>
 \* the link falls silent for good: everything in flight and everything sent later is lost
 Cut(l) ==
   /\ Open /\ l \in Cuts /\ l \notin cut /\ LinkTurn(l)
   /\ cut' = cut \cup {l}
   /\ IF l = "sd" THEN sd' = <<>> /\ UNCHANGED ds ELSE ds' = <<>> /\ UNCHANGED sd
   /\ Hist("cut", IF l = "sd" THEN 0 ELSE 1)
-  /\ UNCHANGED <<cfg, hs, hd, budget, cbud, obs, turn, settled>>
+  /\ UNCHANGED <<txn, cfg, hs, hd, budget, cbud, obs, turn, settled>>
 
 \* Time passing while PDUs are in flight delays each of them: that is a link fault ("delay") and costs budget.
 Tick(dt) ==
@@ -194,7 +199,7 @@ Tick(dt) ==
   /\ <<hs', hd'>> # <<hs, hd>>        \* only while some armed timer has not expired yet
   /\ settled' = {}
   /\ Hist("tick", dt)
-  /\ UNCHANGED <<cfg, sd, ds, cbud, cut, obs, turn>>
+  /\ UNCHANGED <<txn, cfg, sd, ds, cbud, cut, obs, turn>>
 
 \* ---- the users ----
 CancelS ==
@@ -204,7 +209,7 @@ CancelS ==
      /\ hs' = dr.h /\ sd' = OnSd(dr.out) /\ obs' = ObsCall("S", c, dr.out, hd.fs)
   /\ cbud' = cbud \ {"S"} /\ settled' = settled \ {"S"}
   /\ Hist("cancelS", 1)
-  /\ UNCHANGED <<cfg, hd, ds, budget, cut, turn>>
+  /\ UNCHANGED <<txn, cfg, hd, ds, budget, cut, turn>>
 CancelD ==
   /\ Open /\ "D" \in cbud /\ hd.state = "BUSY" /\ (Canon => turn = "D")
   /\ LET c == D!DstCancel(hd, cfg, TRUE, Now)
@@ -212,9 +217,20 @@ CancelD ==
      /\ hd' = dr.h /\ ds' = OnDs(dr.out) /\ obs' = ObsCall("D", c, dr.out, dr.h.fs)
   /\ cbud' = cbud \ {"D"} /\ settled' = settled \ {"D"}
   /\ Hist("cancelD", 1)
-  /\ UNCHANGED <<cfg, hs, sd, budget, cut, turn>>
+  /\ UNCHANGED <<txn, cfg, hs, sd, budget, cut, turn>>
+
+\* the next put request on the same (now idle again) handlers, after a pause of m.gap ms
+NextPut ==
+  /\ AtRest /\ txn < NTx /\ (~Record \/ Len(hist) < MaxHist)
+  /\ LET m == cfg.more[txn]
+         c2 == [cfg EXCEPT !.putMode = m.putMode, !.putClosure = m.putClosure] IN
+     /\ hs' = S!SrcPut(hs, cfg, ReqOf(c2), Now).h
+     /\ Hist("put", m.gap)
+  /\ txn' = txn + 1 /\ obs' = [obs EXCEPT !.dStarted = FALSE] /\ settled' = {} /\ turn' = "S"
+  /\ UNCHANGED <<cfg, hd, sd, ds, budget, cbud, cut>>
 
 Calls == \/ \E d \in BOOLEAN : SrcCall(d)
+         \/ NextPut
          \/ \E d \in BOOLEAN, w \in BOOLEAN : DstCall(d, w)
          \/ SrcEntity \/ DstEntity
 Env == \/ \E k \in {"drop", "dup", "swap", "flip"}, l \in {"sd", "ds"} : Fault(k, l)
@@ -228,16 +244,21 @@ FairSpec == Spec /\ WF_vars(Calls) /\ WF_vars(Time)
 
 \* ==== properties over the observations ====
 \* C01: a reported success implies an identical file (or a genuine checksum collision)
-C01 == \A q \in {obs.finS, obs.finD, obs.finPdu} : \A i \in DOMAIN q : Succ(q[i]) => (q[i].ok \/ q[i].coll)
+\* (the collision clause is for what only the checksum can detect: corrupted payload / rejected writes, and loss in
+\* unacknowledged mode; loss, duplication, reordering and delay in acknowledged mode must be repaired whatever the checksum)
+AllAck == EffMode(cfg) = "ACK" /\ \A i \in DOMAIN cfg.more : EffMode([cfg EXCEPT !.putMode = cfg.more[i].putMode]) = "ACK"
+CollisionExcuses == obs.corrupt \/ ~AllAck
+C01 == \A q \in {obs.finS, obs.finD, obs.finPdu} : \A i \in DOMAIN q :
+          Succ(q[i]) => (q[i].ok \/ (q[i].coll /\ CollisionExcuses))
 \* no API call raised, no fault callback fired
 NoExc == obs.exc = {}
 NoFlt == obs.flt = {}
 \* at most one Transaction-Finished indication per side and transaction
-OneFin == Len(obs.finS) <= 1 /\ Len(obs.finD) <= 1
+OneFin == Len(obs.finS) <= txn /\ Len(obs.finD) <= txn
 GoodS(f) == f.cond = "NO_ERROR" /\ f.deliv = "DATA_COMPLETE"
 \* the outcome demanded by C02 / C03 once everything is over
-GoodEnd == /\ (cfg.indS.finished => Len(obs.finS) = 1 /\ GoodS(obs.finS[1]))
-           /\ (cfg.indD.finished => Len(obs.finD) = 1 /\ GoodS(obs.finD[1]) /\ obs.finD[1].ok)
+GoodEnd == /\ (cfg.indS.finished => Len(obs.finS) = NTx /\ \A i \in DOMAIN obs.finS : GoodS(obs.finS[i]))
+           /\ (cfg.indD.finished => Len(obs.finD) = NTx /\ \A i \in DOMAIN obs.finD : GoodS(obs.finD[i]) /\ obs.finD[i].ok)
            /\ (cfg.mdOnly \/ FileOk(hd.fs))
 DoneIsGood == (Done /\ obs.kf = {}) => GoodEnd
 Completes == <>Done
